@@ -455,25 +455,18 @@ def with_generator_cm(ex, n, st, inf, pos, kw):
         raise Unsupported('`as` target on a generator context manager')
 
     def resume(s):
-        # the with-body runs in the caller's frame; the generator frame is parked meanwhile
+        # the with-body runs in the caller's frame; the generator frame is parked meanwhile (nested context managers push their own entry)
         g = s.stack.pop(); assert g == gfid
         res = []
         for s2, oc in ex.block(body, s):
             s2.stack.append(gfid); res.append((s2, oc))
         return res
-    ex.resume_stack = getattr(ex, 'resume_stack', [])
-    tries = [x for x in node.body if isinstance(x, ast.Try) and any(isinstance(y, ast.Expr) and isinstance(y.value, ast.Yield) for y in x.body)]
-    if len(tries) != 1 or node.body[-1] is not tries[0]:
-        raise Unsupported('generator context manager shape: ' + inf.name)
-    pre = node.body[:-1]; tr = tries[0]
+    ex.cm_stack = getattr(ex, 'cm_stack', [])
+    ex.cm_stack.append({'fid': gfid, 'resume': resume, 'used': False})
     outs = []
-    for s2, oc in ex.block(pre, st):
-        if oc[0] != 'normal':
-            s2.pop(); outs.append((s2, oc if oc[0] == 'raise' else ('raise', s2.exc_obj('RuntimeError')))); continue
-        for s3, oc3 in ex.s_Try(tr, s2, resume=resume):
+    try:
+        for s3, oc3 in ex.block(node.body, st):
             fid = s3.pop()
-            if oc3[0] == 'yield':
-                raise Unsupported('second yield in a context manager')
             parked = s3.g.get('parked', {}).get(fid)
             if parked is None:
                 # the generator ended before reaching its yield: contextlib raises RuntimeError("generator didn't yield")
@@ -484,6 +477,8 @@ def with_generator_cm(ex, n, st, inf, pos, kw):
                 outs.append((s3, ('normal',)))              # the generator finished although the body raised: exception suppressed
             else:
                 outs.append((s3, parked))                   # the generator finished normally (incl. `return`): the parked outcome takes effect
+    finally:
+        ex.cm_stack.pop()
     return outs
 
 
